@@ -93,7 +93,7 @@ func verifH_C13_body_readable() {
 	verifReach("end")
 }
 
-//verif:harness id=C13 tier=quick,thorough witness=end bounds="parameter defaults: query / header / cookie parameter with schema integer default 7, string default 'd', or array of integers default [1,2] (style form/spaceDelimited/pipeDelimited, explode on/off); parameter absent or present; SkipSettingDefaults on/off; after ValidateRequest the forwarded request carries the default exactly when it was absent and defaults are on; validating the forwarded request again succeeds and changes nothing; decoding the parameter again yields the default"
+//verif:harness id=C13 tier=quick,thorough witness=end bounds="parameter defaults: query / header / cookie parameter with schema integer default 7 / 7.0 / 1000000.0 (as decoded from JSON), string default 'd', or array of integers default [1,2] (style form/spaceDelimited/pipeDelimited, explode on/off); parameter absent or present; SkipSettingDefaults on/off; after ValidateRequest the forwarded request carries the default exactly when it was absent and defaults are on; validating the forwarded request again succeeds and changes nothing; decoding the parameter again yields the default"
 func verifH_C13_param_defaults() {
 	in := []string{"query", "header", "cookie"}[verifChoose("in", 3)]
 	shape := verifChoose("shape", 3)
@@ -101,8 +101,18 @@ func verifH_C13_param_defaults() {
 	var wantDecoded any
 	switch shape {
 	case 0:
-		schema = &openapi3.Schema{Type: &openapi3.Types{"integer"}, Default: 7}
-		wantDecoded = int64(7)
+		// a default as a Go int, and as the float64 a JSON / YAML document yields (1000000 = 1e+06)
+		switch verifChoose("intDefault", 3) {
+		case 0:
+			schema = &openapi3.Schema{Type: &openapi3.Types{"integer"}, Default: 7}
+			wantDecoded = int64(7)
+		case 1:
+			schema = &openapi3.Schema{Type: &openapi3.Types{"integer"}, Default: 7.0}
+			wantDecoded = int64(7)
+		case 2:
+			schema = &openapi3.Schema{Type: &openapi3.Types{"integer"}, Default: 1000000.0}
+			wantDecoded = int64(1000000)
+		}
 	case 1:
 		schema = &openapi3.Schema{Type: &openapi3.Types{"string"}, Default: "d"}
 		wantDecoded = "d"
@@ -154,8 +164,6 @@ func verifH_C13_param_defaults() {
 		return
 	}
 	// the forwarded request now carries the default: decode it again
-	explodeOff := param.Explode != nil && !*param.Explode
-	verifKnown("C13-array-default-serialisation", shape == 2 && (in == "header" || in == "cookie" || (explodeOff && (param.Style == "spaceDelimited" || param.Style == "pipeDelimited"))))
 	got, found, derr := decodeStyledParameter(param, &RequestValidationInput{Request: req})
 	verifAssert(derr == nil && found, "C13 parameter defaults: the forwarded request carries the defaulted parameter")
 	verifAssert(verifSameJSON(got, wantDecoded), "C13 parameter defaults: the forwarded parameter decodes to the default value")
